@@ -122,6 +122,9 @@ async fn run(core: &'static Core, proto: VProto, so: &[usize], si: &[usize], fir
             match cw {
                 CW::H1(io) => { tokio::time::timeout(to, io.write_all(&data)).await.map_err(|_| "client write blocked".to_string())?.map_err(|e| format!("client write: {}", e))?; let _ = io.flush().await; Ok(()) }
                 CW::H2(send) => {
+                    // a DATA frame without payload and without END_STREAM is zero bytes of data, not an end of
+                    // stream: one precedes every chunk (clients flush empty frames, e.g. after a window stall)
+                    send.send_data(Bytes::new(), false).map_err(|e| e.to_string())?;
                     let mut rest = Bytes::from(data);
                     while !rest.is_empty() {
                         send.reserve_capacity(rest.len().min(1 << 16));
